@@ -34,6 +34,7 @@ ASSUMPTIONS = [
     "steps after the candidates are numerically exhausted are classified as known finding K2, not judged for distinctness",
 ]
 RULE = RULE + " " + forms.RULE_SUFFIX
+RULE = RULE + " " + 'CUR family, 1 in 6: items in mixed units (one to three of order one, the rest 6-8 decades smaller).'
 
 DEFICIENT = ("lowrank", "dup_rows", "dup_cols", "lattice", "collinear")
 
